@@ -273,6 +273,24 @@ package stree
 //@   at exit: ghost t.elems = setdel(t.elems, rank(t.compare, key))
 //@   call rewrite#1: cmp = t.compare
 //@
+// New. The nodes made from the given keys are sorted by rank (slices.SortFunc), runs of equal rank are cut down to their
+// first node (slices.CompactFunc), and extract builds the tree: every given key's class is in the set, nothing else
+// is, and the representative stored for a class is one of the given keys of that class. limitFunc (floating point)
+// is opaque: it returns some pure function.
+//@ func limitFunc trusted: returns a closure over floating-point logarithms; only that it is a function value is used
+//@   ensures result != nil
+//@
+//@ lemma cardSplit(a set[int], b set[int], c set[int], x int) trusted: (forall k int :: {k in a} k in a <==> (k == x || k in b || k in c)) && !(x in b) && !(x in c) && (forall k int :: {k in b} {k in c} !(k in b && k in c)) ==> card(a) == 1 + card(b) + card(c)
+//@
+//@ func New
+//@   role compare ord
+//@   ghostret from imap[int]
+//@   panics when β < 0 || β > 1000
+//@   ensures  [C01] inv: result != nil && fresh(result) && treeInv(result) && result.compare == compare
+//@   ensures  [C01] all: forall i int :: {keys[i]} 0 <= i && i < len(keys) ==> rank(compare, keys[i]) in result.elems
+//@   ensures  [C01] only: forall k int :: {k in result.elems} k in result.elems ==> 0 <= from[k] && from[k] < len(keys) && rank(compare, keys[from[k]]) == k && result.vals[k] == keys[from[k]]
+//@   ensures  [C01] input: unchanged(elems(keys))
+//@
 // extract builds a search tree from a slice of pairwise different nodes sorted by strictly ascending rank (what New
 // passes after sorting and compacting): the ghost fields of every node of the slice are set on the way back up.
 // ni and ki are witnesses: the position in the slice of every node, respectively of every key, of the result.
